@@ -471,7 +471,7 @@ func (h *evmHist) submit(t *txInfo, how string) {
 		switch {
 		case dupOfLive && preOffered:
 			h.violate("duplicate-accepted:original-pending", fmt.Sprintf("%s is in the pool (the Reap just before offered it) and the same bytes were accepted again", t), nil)
-		case dupOfLive && s.evictedRun:
+		case dupOfLive && s.evictedRun && !h.capacity:
 			// the lookup map no longer knew it: the pool had let go of an executable transaction
 			h.violate("drop:executable-tx-never-offered:evicted-while-waiting-behind-its-pending-predecessor",
 				fmt.Sprintf("%s was accepted and executable (consecutive after the account's pending transactions), no queue reached its limit; after an eviction pass the pool accepts the same bytes again: it had dropped the transaction", t), nil)
@@ -753,6 +753,29 @@ func (w *evmSeq) history(hid int64, shapeIdx int) {
 		h.commit([]int{ta.ID, tb.ID}, "subset")
 		h.sig = append(h.sig, "promotion-at-capacity")
 		run.Count("histories_promotion_at_capacity", 1)
+	}
+	if w.lim >= 8 && len(h.sig) == 0 && rng.Intn(6) == 0 {
+		// gap filler at waiting capacity: nonces 1..limit of one account fill the waiting queue, one
+		// more is turned away or displaces, then nonce 0 arrives: everything up to the capacity of
+		// pending is executable now and must be offered in nonce order
+		for n := 1; n <= w.lim; n++ {
+			h.submit(h.newTx(0, uint64(n), kNormal), "gap")
+		}
+		h.submit(h.newTx(0, uint64(w.lim+1), kNormal), "gap")
+		t0 := h.newTx(0, 0, kNormal)
+		h.submit(t0, "head")
+		ids := h.reap(-1, "")
+		h.bounds("reap", "")
+		if h.st[t0.ID].status == stLive {
+			// whatever the pool displaced to make room: the transaction at the state nonce was accepted,
+			// pending is empty, so it is executable below capacity and must be offered, first
+			if len(ids) == 0 || ids[0] != t0.ID {
+				h.violate("drop:executable-tx-never-offered:accepted-at-the-state-nonce-while-the-waiting-queue-was-full",
+					fmt.Sprintf("%s was accepted at the account's state nonce while the waiting queue was full (pending empty); the next Reap(-1) offers %s", t0, idsString(h.txs, ids)), nil)
+			}
+		}
+		h.sig = append(h.sig, "gap-filler-at-waiting-capacity")
+		run.Count("histories_gap_filler_at_waiting_capacity", 1)
 	}
 	for i := 0; i < nops; i++ {
 		op := pickWeighted(rng, sh.w[:])
